@@ -439,6 +439,15 @@ def parser_jobs(check, mirror, rb, jobs, tier="quick"):
                 lex = ex.read(st, r.cell, r.projs)
                 pos = ex.concrete(lex.fields[pos_idx].e)
                 code = codes[pos] if pos < len(codes) else z3.IntVal(eof)
+                # which names the lexer would see when this token is read: every key of every context above the caller's
+                sc_ = ex.read(st, sref.cell, sref.projs).fields[0]
+                depth_ = ex.concrete(sc_.len)
+                seen_ = []
+                for fr in (sc_.items[len(ctxs):depth_] if depth_ is not None else []):
+                    mp = fr.fields[0]
+                    k_ = ex.concrete(mp.len)
+                    seen_ += [ex.concrete(e_.fields[0].e) for e_ in mp.items[:k_ or 0]]
+                st.log.append(("token_read", pos, tuple(seen_)))
                 f2 = list(lex.fields)
                 f2[pos_idx] = mk_int(pos + 1, "usize")
                 ex.write(st, r.cell, r.projs, Adt("struct", "Lexer", f2))
@@ -464,6 +473,25 @@ def parser_jobs(check, mirror, rb, jobs, tier="quick"):
             if not accepted:
                 return []
             props = [("a successful parse leaves the parsing scope as it found it", scope_unchanged(ex, o.st, inputs["_sref"], inputs["_ctxs"]))]
+            if build is _context and ex.check() == z3.sat:
+                # a context entry's key becomes a name only AFTER its own value: while the tokens of the j-th value are read, the keys of the entries
+                # before it are bound and its own key is not (`{"a+b": a+b}` is the sum of a and b, not a reference to the entry itself)
+                m_ = ex.solver.model()
+                c_ = {k: domains[k][int(model_value(m_, e) or 0)] for k, e in inputs["_sel"].items()}
+                reads = {e[1]: e[2] for e in o.st.log if e[0] == "token_read"}
+                pos_, okk = 2, True     # 0 StartExpression, 1 LeftBrace
+                keys_before = []
+                for j in range(c_["n"]):
+                    if j:
+                        pos_ += 1       # Comma
+                    kpos = pos_
+                    vlen = len(NESTED[c_["value"]]) if j == c_["at"] else 1
+                    for p_ in range(kpos + 2, kpos + 2 + vlen):
+                        names_ = reads.get(p_, ())
+                        okk = okk and (300 + kpos) not in names_ and all(kb in names_ for kb in keys_before)
+                    keys_before.append(300 + kpos)
+                    pos_ = kpos + 2 + vlen
+                props.append(("while the value of a context entry is read, the keys of the earlier entries are names and its own key is not yet", z3.BoolVal(bool(okk))))
             for w in need:
                 props.append(("reach:" + json.dumps(w, sort_keys=True), z3.And([inputs["_sel"][k] == domains[k].index(v) for k, v in w.items()])))
             return props
@@ -480,6 +508,7 @@ def parser_jobs(check, mirror, rb, jobs, tier="quick"):
     fams = dict(PARSE_FAMILIES)
     if tier == "thorough":
         fams.update(THOROUGH_FAMILIES)
+    replay_parse_scope.wants_label = True
     for fname, fam in fams.items():
         jobs.append(lambda c, fname=fname, fam=fam: decide(
             c, crate, "parser_scope/%s" % fname, setup_for(fname, fam), post_for(fam), replay_parse_scope, rb,
@@ -487,7 +516,16 @@ def parser_jobs(check, mirror, rb, jobs, tier="quick"):
             need_reach=["reach:" + json.dumps(w, sort_keys=True) for w in fam[2]]))
 
 
-def replay_parse_scope(i, rb):
+def replay_parse_scope(i, rb, label=""):
+    if label.startswith("while the value of a context entry"):
+        # an entry whose value spells its own key: the value is an expression over the names bound BEFORE the entry
+        notes, bad = [], False
+        for ctx, expr, want in (("{a: 1, b: 2}", '{"a+b": a+b}', "{a+b: 3}"), ("{a: 1, b: 2}", '{"a-b": a-b, c: 5}', "{a-b: -1, c: 5}"), ("{a: 4}", '{"a*a": a*a, r: 1}', "{a*a: 16, r: 1}")):
+            _, out, _ = replay_call(rb, ["feelctx", ctx, expr])
+            dev = out.strip() != "VALUE " + want
+            bad = bad or dev
+            notes.append("%s in %s -> %s%s" % (expr, ctx, out[:50], "" if not dev else " (specified %s)" % want))
+        return bad, "; ".join(notes)
     names = iter(["v", "xs", "w", "ys", "body", "q", "a", "b", "c", "d", "e", "f", "g", "h"])
     # bound names for the domains / bodies so the text parses; iteration variables are fresh names
     words = []
